@@ -275,6 +275,7 @@ struct Rw<'a> {
     dyn_params: Vec<BTreeSet<String>>,     // per fn: params of type &mut dyn _
     bufmut_params: Vec<BTreeSet<String>>,  // per fn: params of type &mut BytesMut / &mut Vec<u8>
     str_params: Vec<BTreeSet<String>>,     // per fn: params of type &str
+    mutslice_params: Vec<BTreeSet<String>>, // per fn: params of type &mut [u8]
     closure_ctr: usize,
     file: String,
 }
@@ -576,6 +577,18 @@ impl<'a> VisitMut for Rw<'a> {
                         }
                     }
                 }
+                // N13: <&mut [u8] parameter>.as_ref() -> shim
+                if mname == "as_ref" && mc.args.is_empty() {
+                    if let Expr::Path(p) = &*mc.receiver {
+                        if let Some(id) = p.path.get_ident() {
+                            if self.mutslice_params.last().map(|s| s.contains(&id.to_string())).unwrap_or(false) {
+                                self.log.push(format!("N13 {}.as_ref() (a &mut [u8] parameter) -> crate::sp::vp_mut_slice_as_ref({})", id, id));
+                                *e = parse_quote!(crate::sp::vp_mut_slice_as_ref(#id));
+                                return;
+                            }
+                        }
+                    }
+                }
                 // N13: String::from_utf8_lossy(x).to_string() -> shim (Cow<str> cannot be specified)
                 if mname == "to_string" && mc.args.is_empty() {
                     if let Expr::Call(c) = &*mc.receiver {
@@ -714,8 +727,16 @@ impl<'a> Rw<'a> {
         let mut d = BTreeSet::new();
         let mut b = BTreeSet::new();
         let mut st = BTreeSet::new();
+        let mut ms = BTreeSet::new();
         for a in &sig.inputs {
             if let FnArg::Typed(pt) = a {
+                if let (Pat::Ident(pi), Type::Reference(r)) = (&*pt.pat, &*pt.ty) {
+                    if r.mutability.is_some() {
+                        if let Type::Slice(_) = &*r.elem {
+                            ms.insert(pi.ident.to_string());
+                        }
+                    }
+                }
                 if let (Pat::Ident(pi), Type::Reference(r)) = (&*pt.pat, &*pt.ty) {
                     if r.mutability.is_none() {
                         if let Type::Path(tp) = &*r.elem {
@@ -746,11 +767,13 @@ impl<'a> Rw<'a> {
         self.dyn_params.push(d);
         self.bufmut_params.push(b);
         self.str_params.push(st);
+        self.mutslice_params.push(ms);
     }
     fn pop_params(&mut self) {
         self.dyn_params.pop();
         self.bufmut_params.pop();
         self.str_params.pop();
+        self.mutslice_params.pop();
     }
 
     /// N6
@@ -1572,6 +1595,7 @@ fn main() {
             dyn_params: vec![],
             bufmut_params: vec![],
             str_params: vec![],
+            mutslice_params: vec![],
             closure_ctr: 0,
             file: path.to_string(),
         };
